@@ -79,6 +79,14 @@ type caseOut struct {
 
 func ipStr(i int) string { return fmt.Sprintf("10.1.%d.%d", (i>>8)&255, i&255) }
 
+// list keys: an address, or (numbers >= 1000) the /28 that contains the addresses 16g .. 16g+15 (Model/Lockout.v cidr_of)
+func keyStr(i int) string {
+	if i >= 1000 {
+		return fmt.Sprintf("10.1.0.%d/28", 16*(i-1000))
+	}
+	return ipStr(i)
+}
+
 // ---- doubles for HandleHandshake ----
 type fakeConn struct {
 	session.ControlConnectionInterface
@@ -139,13 +147,22 @@ type rig struct {
 }
 
 func newRig(c cfgIn) *rig {
+	return newRigOn(c, nil)
+}
+
+// newRigOn builds every component anew; with a storage given, the IPManager is rebuilt over it (= what a
+// restarted process, or a second node sharing the store, does in NewIPManager -> loadFromStorage)
+func newRigOn(c cfgIn, st storage.Storage) *rig {
 	ctx, cancel := context.WithCancel(context.Background())
 	g := &rig{ctx: ctx, cancel: cancel}
 	g.p = security.NewBruteForceProtector(&security.BruteForceConfig{
 		MaxFailures: c.MaxF, TimeWindow: time.Duration(c.WindowMs) * time.Millisecond,
 		BanDuration: time.Duration(c.BanMs) * time.Millisecond, PermanentBanAt: c.Perm,
 		CleanupInterval: time.Hour}, ctx)
-	g.m = security.NewIPManager(storage.NewMemoryStorage(ctx), ctx)
+	if st == nil {
+		st = storage.NewMemoryStorage(ctx)
+	}
+	g.m = security.NewIPManager(st, ctx)
 	g.r = security.NewRateLimiter(&security.RateLimitConfig{Rate: c.Rate, Burst: c.Burst,
 		TTL: time.Duration(c.TTLMs) * time.Millisecond}, nil, ctx)
 	g.cloud = &fakeCloud{}
@@ -195,8 +212,11 @@ func b2i(b bool) int {
 }
 
 func runTimeline(c *caseIn) *caseOut {
-	g := newRig(c.Cfg)
-	defer g.cancel()
+	stCtx, stCancel := context.WithCancel(context.Background())
+	defer stCancel()
+	st := storage.NewMemoryStorage(stCtx) // the one store of this "deployment": survives the restarts
+	g := newRigOn(c.Cfg, st)
+	defer func() { g.cancel() }()
 	out := &caseOut{Kind: "tl"}
 	start := time.Now()
 	ms := func(n int) time.Duration { return time.Duration(n) * time.Millisecond }
@@ -204,7 +224,10 @@ func runTimeline(c *caseIn) *caseOut {
 		if d := time.Until(start.Add(ms(o.At))); d > 0 {
 			time.Sleep(d)
 		}
-		ip := ipStr(o.IP)
+		ip := keyStr(o.IP)
+		if o.Op == "restart" { // before the clock is read: the rebuild is the operation
+			g.cancel()
+		}
 		cc0 := atomic.LoadInt64(&g.cloud.calls)
 		r := 0
 		t0 := time.Since(start)
@@ -241,6 +264,9 @@ func runTimeline(c *caseIn) *caseOut {
 			g.r.VerifCleanup()
 		case "hs":
 			r = g.handshake(ip, o.Arg)
+		case "restart":
+			g = newRigOn(c.Cfg, st)
+			cc0 = 0
 		default:
 			panic("bad op " + o.Op)
 		}
